@@ -12,12 +12,14 @@
    The state conditions of that theorem are established and kept by every history that creates properties, attaches plain observers,
    binds fresh properties through the evaluator, assigns to inputs and calls evaluateAll (coq/PropGrowLazy.v:
    C06_state_conditions_reachable, C06_reachable_one_pass).
-   PARTIAL: mixed worlds (immediate and evaluator-driven bindings together, several evaluators, acting observers) are covered by the
-   extracted checker PropCheck.check_c06_after_evalall on every evaluateAll of every generated history and by correspondence;
-   bindings that were reset / replaced / destroyed leave the registry in destroy_binding (definition), which is what evaluateAll
-   iterates, and own no subscription any more (C07_reset_disconnects, C10_no_orphan_subscription). *)
+   The same holds for histories that also reset() bound properties (coq/PropGrowLazyMore.v: C06_network_with_resets_one_pass), and a
+   reset binding is dead and no longer in the registry that evaluateAll iterates (C06_reset_binding_never_evaluated_again); it owns
+   no subscription any more (C07_reset_disconnects, C10_no_orphan_subscription).
+   PARTIAL: mixed worlds (immediate and evaluator-driven bindings together, several evaluators, acting observers, replacement and
+   destruction) are covered by the extracted checker PropCheck.check_c06_after_evalall on every evaluateAll of every generated
+   history and by correspondence. *)
 From KDB Require Import Util PropDefs PropProofs.
-From KDB Require PropAbs PropAbsLazy PropCheck PropSim PropSimLazy PropGrowLazy.
+From KDB Require PropAbs PropAbsLazy PropCheck PropSim PropSimLazy PropGrowLazy PropGrowLazyMore.
 
 (* a notification reaching a node of an evaluator-driven binding only sets dirty flags *)
 Theorem C06_notification_only_marks :
@@ -119,6 +121,39 @@ Theorem C06_reachable_one_pass :
       lookup (w_props w') q = Some pr -> PropCheck.den_node fn (values w') (b_root x) = Some z -> pr_value pr = z.
 Proof. exact PropGrowLazy.lazy_reachable_one_pass. Qed.
 Print Assumptions C06_reachable_one_pass.
+
+(* ... and for histories in which bound properties are also reset(): lazy_run2_ok = the growing-network operations plus reset *)
+Theorem C06_network_with_resets_one_pass :
+  forall fn rtl ev, ev <> 0 -> forall f ops e w',
+    PropGrowLazyMore.lazy_run2_ok fn rtl ev f world0 ops ->
+    lookup (w_bevs (run fn rtl (S f) ops)) e = Some ev ->
+    step1 fn rtl (S f) (run fn rtl (S f) ops) (BevEvalAll e) = (w', None) ->
+    forall st, nth_error (w_evps (run fn rtl (S f) ops)) ev = Some st ->
+    forall q x pr z, In q (PropSimLazy.regs_of (run fn rtl (S f) ops) (ep_registry st)) -> PropSimLazy.lz_of w' q = Some x ->
+      lookup (w_props w') q = Some pr -> PropCheck.den_node fn (values w') (b_root x) = Some z -> pr_value pr = z.
+Proof. exact PropGrowLazyMore.lazy2_reachable_one_pass. Qed.
+Print Assumptions C06_network_with_resets_one_pass.
+
+(* "Bindings that were reset ... are never evaluated again": after reset() the binding is dead and the property is not among the
+   registered targets that evaluateAll iterates *)
+Theorem C06_reset_binding_never_evaluated_again :
+  forall fn rtl ev fuel w p pr b w',
+    PropSimLazy.LSC ev w -> lookup (w_props w) p = Some pr -> pr_updater pr = Some b ->
+    step1 fn rtl fuel w (PReset p) = (w', None) ->
+    get_bind w' b = None /\ forall st, nth_error (w_evps w') ev = Some st -> ~ In p (PropSimLazy.regs_of w' (ep_registry st)).
+Proof. exact PropGrowLazyMore.reset_leaves_registry. Qed.
+Print Assumptions C06_reset_binding_never_evaluated_again.
+
+(* non-vacuity: a chain of three, the middle one reset, then written directly; one evaluateAll brings the end of the chain up to date *)
+Example C06_reset_example :
+  let fn := fun (f : nat) (l : list Z) => Some (fold_right Z.add (Z.of_nat f) l) in
+  let ops := [PNew 0 1%Z; BevNew 0; PBind 1 (EOp1 1 (EProp 0)) (MEvaluator 0); PBind 2 (EOp1 2 (EProp 1)) (MEvaluator 0);
+              PReset 1; PSet 1 20%Z WSet; PSet 0 7%Z WSet] in
+  PropGrowLazyMore.lazy_run2_ok fn true 1 7 world0 ops /\
+  map (fun e => match e with EvVal v => v | _ => None end)
+      (filter (fun e => match e with EvVal _ => true | _ => false end) (w_trace (run fn true 8 (ops ++ [BevEvalAll 0; PGet 1; PGet 2]))))
+  = [Some 22%Z; Some 20%Z].
+Proof. split; [vm_compute; repeat split; reflexivity|vm_compute; reflexivity]. Qed.
 
 (* non-vacuity of the premises: a chain of two evaluator-driven bindings created in dependency order is such a history, its
    registration order is duplicate free and dependency ordered *)
